@@ -2,3 +2,4 @@
 //! expected finding count on /repo is zero.  Analysed by the same driver on every run; a rule
 //! that does not report its control makes the check fail as broken.
 #![allow(dead_code, unused_variables)]
+pub mod t1;
